@@ -192,6 +192,8 @@ def _sub_guard(site):
 
 def check(ctx):
     F = ctx.facts("prod")
+    from props import controls
+    controls.require(ctx, "panic-site", "alloc", "unsafe", "recursion")
     ctx.clause("R-REACH panic census over entry-point-reachable code (Assert terminators, panic primitives, integer operator calls, own wrappers); "
                "each site discharged by structure, by a reasoned table row with exact count, or by a known finding")
     ctx.clause("R-MUST validation gates: rkyv check before deserialize; size limits before parse; verify before prepare; stream size check")
